@@ -166,7 +166,7 @@ func readXZMode(data []byte, dictCap int, single bool, bufSize int, mode string)
 
 // C03: the reader decodes every valid LZMA2-only .xz stream to the right bytes.
 func C03(c *hx.Ctx) {
-	c.Rule = "valid streams = frozen xz-utils corpus + fresh xz-utils encodings (when installed) + streams realised from TLC-generated behaviours of LzmaGen (operations x chunk events) wrapped in container layouts (0-3 blocks, optional size fields, every check, extra header padding, dictionary code >= needed); each decoded with ReaderConfig.DictCap in {4096, declared, 2x declared}; the reference decoder (and xz-utils) must agree before the library is judged; non-trivial = stream with >= 2 chunks or a rep/short-rep operation"
+	c.Rule = "valid streams = frozen xz-utils corpus + fresh xz-utils encodings (when installed) + streams realised from TLC-generated behaviours of LzmaGen (operations x chunk events) wrapped in container layouts (0-3 blocks, optional size fields, every check, extra header padding, dictionary code >= needed); each decoded with ReaderConfig.DictCap in {4096, declared, 2x declared}; the reference decoder (and xz-utils) must agree before the library is judged; non-trivial = stream with >= 2 chunks or a rep/short-rep operation; plus empty-block layouts with size fields, 127-130-block streams, chunks on the size limits; rotating source fragmentations and read sizes"
 	c.Assumptions = []string{"TLC (LzmaMC, LzmaGen, TraceLzma)", "internal/ref encoder/decoder; generated streams are additionally validated by TLC at operation level and by xz-utils when installed"}
 	c.DesignCheck(tlc.Opts{Module: "LzmaMC", Cfg: "LzmaMC.cfg", Timeout: 3 * time.Minute}, []string{"Next"})
 	configTable(c, "reader")
